@@ -1,7 +1,7 @@
 (* C03: the leaf structs Source / PublicKey / Endpoints.  Their codecs are the generated statements of
    T.GobEncode / ( *T).GobDecode interpreted one level down (wenc0 / rdec0); the round trip of each follows
    from the generic struct lemma of Proofs/GobP.v under the leaf table condition [leaves_ok].  Then the
-   soundness of every encoder / decoder pair the table condition of the 14 struct kinds admits. *)
+   soundness of every encoder / decoder pair the table condition of the 14 struct kinds accepts. *)
 From AP.Model Require Import Prelude Vocab Bytes Layout Pred Dispatch GobTables Gob GobCheck GobNorm GobWhole.
 From AP.Proofs Require Import NlvP ViewsP GobP.
 
@@ -407,7 +407,7 @@ Proof.
     now rewrite Hre.
 Qed.
 
-(* ---- every encoder / decoder pair the table condition of the struct kinds admits *)
+(* ---- every encoder / decoder pair the table condition of the struct kinds accepts *)
 Lemma endp_of_nil : endp_of E [] = [].
 Proof. unfold endp_of. induction (ge_layout_endpoints E) as [|d r IH]; [reflexivity|exact IH]. Qed.
 
@@ -437,7 +437,7 @@ Proof.
     unfold rdec, rdec_source in *.
     destruct (rdec_leaf E rec n_source (source_fields cur) w) as [o| | |] eqn:Ho; try discriminate.
     destruct (rdec_leaf_indep _ _ (source_fields cur') _ _ Ho) as [o' ->]. simpl. eauto.
-  - (* Endpoints.GobDecode through a field: never admitted *)
+  - (* Endpoints.GobDecode through a field: never accepted *)
     exfalso. destruct t; destruct cw; discriminate.
   - eauto.
   - unfold rdec, rdec_pubkey in *.
